@@ -13,6 +13,7 @@ mod rbac;
 mod scenarios;
 mod world;
 mod crypto;
+mod hostile;
 mod hosts;
 mod http;
 mod keeper;
